@@ -198,7 +198,8 @@ func (opts GeneratorOptions) genScalarFieldValue(t *rapid.T, field protoreflect.
 	case protoreflect.EnumKind:
 		enumValues := field.Enum().Values()
 		val := rapid.Int32Range(0, int32(enumValues.Len()-1)).Draw(t, name)
-		return protoreflect.ValueOfEnum(protoreflect.EnumNumber(val))
+		// val indexes the declared values; their numbers need not be 0..n-1
+		return protoreflect.ValueOfEnum(enumValues.Get(int(val)).Number())
 	case protoreflect.StringKind:
 		return protoreflect.ValueOfString(rapid.String().Draw(t, name))
 	default:
